@@ -23,6 +23,20 @@ def main():
         if req.get("op") == "quit":
             break
         try:
+            if req.get("op") == "interleave":
+                (ra, da), (rb, db) = _env.run_interleaved(
+                    req["a"], req["b"], req["permille"],
+                    step_budget=req.get("step_budget", _env.DEFAULT_STEP_BUDGET),
+                    event_cap=req.get("event_cap", _env.DEFAULT_EVENT_CAP),
+                )
+                for res, data, pth in ((ra, da, req["out_paths"][0]), (rb, db, req["out_paths"][1])):
+                    with open(pth, "wb") as f:
+                        f.write(data)
+                    if not req.get("want_events"):
+                        res.pop("events", None)
+                reply.write(json.dumps({"id": req.get("id"), "ok": True, "res": [ra, rb]}) + "\n")
+                reply.flush()
+                continue
             if req.get("op") == "session":
                 outs = _env.run_session(
                     req["invocations"],
